@@ -47,6 +47,7 @@ type vOpenEnv struct {
 	failW   map[string]bool // files whose writes fail
 	asked   []string        // every path the file opener was asked for
 	refused []string        // paths that belong to destinations the URL rules refuse
+	std     int             // destinations that are the process's stdout/stderr
 	saved   *sinkRegistry
 }
 
@@ -110,7 +111,7 @@ func (e *vOpenEnv) vPath(id string, kinds ...int) (spelling string, fails bool) 
 	if len(kinds) > 0 {
 		kind = kinds[vrt.Choice(id+".kind", len(kinds))]
 	} else {
-		kind = vrt.Choice(id+".kind", 6)
+		kind = vrt.Choice(id+".kind", 7)
 	}
 	fails = vrt.Bool(id + ".fails")
 	var key string
@@ -130,6 +131,10 @@ func (e *vOpenEnv) vPath(id string, kinds ...int) (spelling string, fails bool) 
 	case 4:
 		key = "rel-" + id
 		spelling = key
+	case 6: // the special names: the process's own stdout/stderr, which zap must never close
+		spelling = []string{"stdout", "stderr"}[vrt.Choice(id+".std", 2)]
+		e.std++
+		return spelling, false
 	case 5: // a destination the file-URL rules refuse, whatever the opener would do: nothing may be opened for it
 		bad := []string{"rel-%s?rotate=daily", "rel-%s#frag", "stdout?sync=1", "file:///p/%s?x=1", "file://user@localhost/p/%s", "file://localhost:80/p/%s", "file://example.com/p/%s", "file:///p/%s#f"}
 		b := bad[vrt.Choice(id+".bad", len(bad))]
@@ -173,9 +178,12 @@ func vOpenN(maxP int) {
 		vrt.Fail("open-succeeds-when-every-destination-opens")
 		return
 	}
-	vrt.Assert("every-destination-opened", len(e.opened)+len(e.sinks) == p)
+	vrt.Assert("every-destination-opened", len(e.opened)+len(e.sinks)+e.std == p)
 	vrt.Assert("success-closes-nothing", e.noneClosed())
 	payload := vrt.Bytes("w", 2)
+	if e.std > 0 {
+		payload = []byte("ok") // goes to the real stdout/stderr when replayed natively
+	}
 	n, werr := ws.Write(payload)
 	vrt.Assert("write-reported", n == 2 && werr == nil)
 	got := true
@@ -199,9 +207,10 @@ func vOpenN(maxP int) {
 	}
 	closeAll()
 	vrt.Assert("closeAll-closes-every-sink", e.allClosed())
+	vrt.Assert("stdout-and-stderr-are-never-closed", vrt.FileCloses(os.Stdout) == 0 && vrt.FileCloses(os.Stderr) == 0)
 }
 
-//verif: prop=C19 bounds="Open with 0..2 destinations, each an absolute path, file URL, FILE://localhost URL, registered custom scheme (registered upper-case, used lower/mixed case), relative path, or a destination the file-URL rules refuse (query or fragment on a scheme-less path or file URL, user info, port, foreign host), each opening successfully or failing (every outcome vector); success: 2 symbolic bytes reach every destination, Sync reaches all, closeAll closes each once; failure: every opened handle closed"
+//verif: prop=C19 bounds="Open with 0..2 destinations, each an absolute path, file URL, FILE://localhost URL, registered custom scheme (registered upper-case, used lower/mixed case), relative path, the special names stdout/stderr (never closed), or a destination the file-URL rules refuse (query or fragment on a scheme-less path or file URL, user info, port, foreign host), each opening successfully or failing (every outcome vector); success: 2 symbolic bytes reach every destination, Sync reaches all, closeAll closes each once; failure: every opened handle closed"
 func VC19Open2() { vOpenN(2) }
 
 //verif: prop=C19 tier=thorough bounds="Open with 0..3 destinations (as VC19Open2)"
